@@ -54,7 +54,13 @@ type Frame struct {
 	closure  *Closure
 	// callback continuation marker: when this frame returns, run continuation id
 	cont func(st *State, results []Val)
-	// results captured at Return (for RunDefers ordering)
+	// source-level names of locals (from DebugRef), for loop invariants
+	names map[string]namedRef
+}
+
+type namedRef struct {
+	val    Val
+	isAddr bool
 }
 
 type State struct {
@@ -83,6 +89,7 @@ type State struct {
 	assumeTo  *State // evaluation copies forward their assumptions to the real state
 	dryFreshFrom int
 	pendingAx []pendingAxiom
+	ghosts map[string]Term // loop ghost arrays
 }
 
 func (st *State) clone() *State {
@@ -100,6 +107,12 @@ func (st *State) clone() *State {
 			nf.locals[k] = v
 		}
 		nf.defers = append([]deferred(nil), f.defers...)
+		if f.names != nil {
+			nf.names = make(map[string]namedRef, len(f.names))
+			for k, v := range f.names {
+				nf.names[k] = v
+			}
+		}
 		n.frames[i] = &nf
 	}
 	n.events = append([]Event(nil), st.events...)
@@ -125,6 +138,10 @@ func (st *State) clone() *State {
 	n.onceDone = make(map[string]Term, len(st.onceDone))
 	for k, v := range st.onceDone {
 		n.onceDone[k] = v
+	}
+	n.ghosts = make(map[string]Term, len(st.ghosts))
+	for k, v := range st.ghosts {
+		n.ghosts[k] = v
 	}
 	n.statics = make(map[string]Val, len(st.statics))
 	for k, v := range st.statics {
